@@ -874,8 +874,23 @@ fn cmd_c04(seed: u64, n: u64, ops_path: &str, impl_path: &str) -> Result<()> {
         let wasm = wat::parse_str(&build_guest(&api, &g))?;
         modules.push((trampoline(&wasm)?, idx, false, dup));
     }
+    // every string-carrying function (and two scalar ones) imported twice: the second occurrence has glue
+    // of its own and must behave like the first
+    for name in ["shopify_function_input_read_utf8_str", "shopify_function_input_get_obj_prop", "shopify_function_output_new_utf8_str", "shopify_function_intern_utf8_str", "shopify_function_log_new_utf8_str", "shopify_function_input_get_at_index", "shopify_function_output_new_i32"] {
+        let k = api.iter().position(|a| a.name == name).unwrap_or(0);
+        let other = api.iter().position(|a| a.name == "shopify_function_input_get").unwrap_or(0);
+        let idx = vec![k, other];
+        let g = GuestSpec { apis: idx.clone(), foreign_first: false, foreign_between: true, own_stuff: true, memories: 1, module_name: API_MODULE.into(), own_state: true, foreign_memory: false, bad_sig: None, extra_import: None, dup: Some((k, api[k].sig.clone())), nonfunc: None, extra_nonfunc: None };
+        let wasm = wat::parse_str(&build_guest(&api, &g))?;
+        modules.push((trampoline(&wasm)?, idx, false, Some(k)));
+    }
     for i in 0..n {
-        let mi = if i % 3 == 0 { (i / 3) as usize % fam.len() } else { rng.below(modules.len() as u64) as usize };
+        // family modules, then every module in turn, then at random
+        let mi = match i % 3 {
+            0 => (i / 3) as usize % fam.len(),
+            1 => (i / 3) as usize % modules.len(),
+            _ => rng.below(modules.len() as u64) as usize,
+        };
         let (wasm, apis, in_family, dup) = &modules[mi];
         let mut k = apis[rng.below(apis.len() as u64) as usize];
         let mut path = ["api", "w", "t"][rng.below(3) as usize];
